@@ -36,7 +36,10 @@ MANIFEST = {
                 "current body (never a blocking ::read, -1 only as EINVAL, stdout first, ...); daemonize (PropsDmn.lean) = Kernel.daemonizeFds for "
                 "every table and every answer of ::open / fork; the 'prepare argv of child' statement of start(program, argc, argv, env) and of "
                 "open(executable, argc, argv, streams, env) (fragment translation, PropsVec.lean) = the model's prepareArgv for every program, "
-                "argc and pointer vector (same fault, same resulting vector) - so argv_env_exact* speak about the current argv preparation.  "
+                "argc and pointer vector (same fault, same resulting vector) - so argv_env_exact* speak about the current argv preparation; three "
+                "more fragments of open() (PropsOpen.lean): the parent branch behind vfork(), the child branch up to execvpe and the error: path "
+                "= the components of Kernel.openFds / openFdsFailed on every table and whatever the pipe arrays hold - so open_pipe_ends_exact "
+                "and open_failure_restores_table speak about the current close/dup2 sequences.  "
                 "A change of these C++ bodies changes the generated Lean "
                 "definitions and the equality proofs fail; a construct outside the translated subset is refused (broken tie).  "
                 "PROVED about the model of the code, for all inputs: option tables x argument vectors (result sequence = getopt "
@@ -73,7 +76,7 @@ MANIFEST = {
                 "System calls of the translated Process-object functions: ::close / ::kill append to a trace, `waitpid(pid, &status, 0) != "
                 "(pid_t)pid` is one oracle-answered condition (waitpid returns the requested pid or -1), CSemProc.lean.  "
                 "Everything of Process.cpp OTHER than nextChar / read / the Arguments constructor / splitCommandLine / Process(), ~Process, "
-                "isRunning, kill, join, close, exit, the 2- and 3-argument read, write, setEnvironmentVariable, getEnvironmentVariable, daemonize (i.e. start and open apart from their argv preparation - pid check, environment preparation, pipes, vfork, dup2/close, execvpe -, wait, interrupt, getEnvironmentVariables, prepareEnv) is still a HAND translation into the model, validated by the "
+                "isRunning, kill, join, close, exit, the 2- and 3-argument read, write, setEnvironmentVariable, getEnvironmentVariable, daemonize (i.e. of start and open: the pid check, the environment preparation, the pipe() calls, vfork and execvpe themselves; start(commandLine)'s vector building; wait, interrupt, getEnvironmentVariables, prepareEnv) is still a HAND translation into the model, validated by the "
                 "correspondence run, not proved.  A harmless restructuring of a translated body breaks the equality proof (reported as "
                 "'proof obligations / model tie no longer check' without failing input).  Checked-memory abstraction (one block per argv word / option name, the option table holds "
                 "null or NUL-free terminated names); Map iteration = ascending key order (C01).  'getopt rules' means the "
@@ -97,7 +100,7 @@ MANIFEST = {
     }
 }
 PROPS = ["Nstd.Args.Props", "Nstd.Args.PropsWait", "Nstd.Args.PropsRun", "Nstd.Args.PropsRead", "Nstd.Args.PropsFds",
-         "Nstd.Args.PropsCode", "Nstd.Args.PropsProc", "Nstd.Args.PropsSel", "Nstd.Args.PropsStr", "Nstd.Args.PropsDmn", "Nstd.Args.PropsVec"]
+         "Nstd.Args.PropsCode", "Nstd.Args.PropsProc", "Nstd.Args.PropsSel", "Nstd.Args.PropsStr", "Nstd.Args.PropsDmn", "Nstd.Args.PropsVec", "Nstd.Args.PropsOpen"]
 LEAN_TARGETS = PROPS + ["drv_args"]
 DRIVER = "drv_args"
 SOURCES = ["args.cpp", C.REPO / "src/String.cpp", C.REPO / "src/Memory.cpp", C.REPO / "src/Debug.cpp",
